@@ -88,6 +88,14 @@ Proof.
     rewrite N.eqb_refl. cbn [res_bind negb orb]. reflexivity.
 Qed.
 
+Theorem precompressed_roundtrip C g p comp cks s :
+  p <> [] -> bytes_ok p -> comp < 8 -> checksum_ok cks ->
+  serialize_pre p comp cks = Ok s -> deserialize_gen C g s false = Ok (p, comp).
+Proof.
+  intros H1 H2 H3 H4 H5. destruct (deserialize_pre C g p comp cks s H1 H2 H3 H4 H5) as (f & _ & _ & _ & D).
+  exact D.
+Qed.
+
 (* the part of deserialize after the checksum stage, exposed for reuse *)
 Definition after_envelope (C : codecs) (g : bool) (comp : N) (cdata : bytes) (u : bool) : res (bytes * N) :=
   if negb u || (comp =? n_Uncompressed) then Ok (cdata, comp)
